@@ -101,4 +101,55 @@ def IsV6Spelling (addr : Str) (n : Nat) : Prop :=
 /-- `a/len` -/
 def cidr (a : Str) (len : Nat) : Str := a ++ '/' :: toDec len
 
+/-! ### RFC 5952 §4: the one recommended text of an IPv6 address
+
+* §4.1 leading zeros of a group are suppressed, a zero group is written `0`; §4.3 `a`–`f` are lower case
+  (both: `hexShort`);
+* §4.2.1/4.2.2 `::` replaces a run of zero groups that is as long as possible and at least two groups long,
+  §4.2.3 the first such run when several are equally long (`IsShortened`);
+* every other group is written, groups are separated by one `:`; when no run of two zero groups exists
+  there is no `::` at all.
+-/
+
+/-- `s` is the RFC 5952 text of the 128-bit value `n` -/
+def IsRfc5952 (s : Str) (n : Nat) : Prop :=
+  (∃ start len, IsShortened (groups n) start len ∧ s = compressedAt (groups n) start len) ∨
+  ((∀ start len, ¬ IsShortened (groups n) start len) ∧ s = join [':'] ((groups n).map hexShort))
+
+/-! ### positional numerals: what the zero-padded / hex / binary renderings mean
+
+A rendering is read by its *width*, its *digits* and its *value*: `IsFixed b w s v` – `s` is exactly `w`
+lower-case base-`b` digits and denotes `v` (leading zeros are padding); `IsShortest b s v` – `s` is the
+base-`b` writing of `v` without leading zeros (`0` for zero), what `str()`, `hex()[2:]`, `'%x'` print. -/
+
+/-- value of the digit character `c` in base `b ≤ 16`: `0`–`9`, lower-case `a`–`f`, below the base -/
+def digitOf (b : Nat) (c : Char) : Option Nat :=
+  if 48 ≤ c.toNat ∧ c.toNat ≤ 57 ∧ c.toNat - 48 < b then some (c.toNat - 48)
+  else if 97 ≤ c.toNat ∧ c.toNat ≤ 102 ∧ c.toNat - 87 < b then some (c.toNat - 87)
+  else none
+
+/-- the number a run of base-`b` digits denotes, most significant first, continuing from `acc` -/
+def numFrom (b : Nat) : Nat → Str → Option Nat
+  | acc, [] => some acc
+  | acc, c :: cs =>
+    match digitOf b c with
+    | some d => numFrom b (acc * b + d) cs
+    | none => none
+
+/-- `s` is `v` written with exactly `w` base-`b` digits -/
+def IsFixed (b w : Nat) (s : Str) (v : Nat) : Prop := s.length = w ∧ numFrom b 0 s = some v
+
+/-- `s` is `v` written in base `b` without leading zeros -/
+def IsShortest (b : Nat) (s : Str) (v : Nat) : Prop :=
+  s ≠ [] ∧ (s.head? = some '0' → s = ['0']) ∧ numFrom b 0 s = some v
+
+/-- the texts `ts` are the `w`-digit base-`b` writings of the values `vs`, one for one -/
+def AreFixed (b w : Nat) : List Str → List Nat → Prop
+  | [], [] => True
+  | t :: ts, v :: vs => IsFixed b w t v ∧ AreFixed b w ts vs
+  | _, _ => False
+
+/-- the four octets, most significant first -/
+def octets (n : Nat) : List Nat := (List.range 4).map (octet n)
+
 end Ccp.Spec.IP
